@@ -1,7 +1,126 @@
-import Chain33Model.Model.C01
-/-! C01 — property theorems (work in progress). -/
-namespace C01
+import Chain33Model.Proofs.C01Batch
+/-!
+C01 — State tree behaves as a persistent versioned map.  Property theorems only (helpers: Proofs/C01*.lean).
 
-theorem toList_leaf (k v : Bytes) (m : Meta) : (Node.leaf k v m).toList = [(k, v)] := rfl
+Model: `Chain33Model/Model/C01.lean` (`Node.set/get/balance/traverse` mirror system/store/mavl/db/node.go).
+`ST` = search-tree ordering, `WF` = stored height/size correct + AVL balance, `TInv` = both (tree level).
+Spec side: `SMap` (strictly sorted association list), `lastWrite`, `sel` (range filter in direction), `runCb`.
+-/
+namespace C01
+open Node
+
+/-- **set_inv** — `set` never panics and preserves the search-tree ordering, the stored height/size fields and
+the AVL balance (for every tree satisfying them, every key and value). -/
+theorem set_inv (t : Node) (k v : Bytes) (hst : ST t) (hwf : WF t) :
+    ∃ t' u, t.set k v = some (t', u) ∧ ST t' ∧ WF t' ∧
+      (u = true → t'.height = t.height ∧ t'.size = t.size) ∧
+      (u = false → t'.size = t.size + 1 ∧ t.height ≤ t'.height ∧ t'.height ≤ t.height + 1) := by
+  obtain ⟨t', u, e, _, hst'⟩ := set_spec t k v hst
+  obtain ⟨hwf', h1, h2⟩ := set_WF t k v hwf t' u e
+  exact ⟨t', u, e, hst', hwf', h1, h2⟩
+
+/-- non-vacuity: a concrete two-level tree satisfies the hypotheses of `set_inv`. -/
+example : ST (.inner [98] 1 2 (.leaf [97] [1] Meta.fresh) (.leaf [98] [2] Meta.fresh) Meta.fresh) ∧
+          WF (.inner [98] 1 2 (.leaf [97] [1] Meta.fresh) (.leaf [98] [2] Meta.fresh) Meta.fresh) := by
+  refine ⟨⟨trivial, trivial, ?_, ?_⟩, trivial, trivial, rfl, rfl, by decide, by decide⟩ <;>
+    simp [lt, le, cmpB]
+
+/-- **set_total** — `set` (hence `balance`, `rotateLeft/Right`) never panics, on any tree whatsoever. -/
+theorem set_total (t : Node) (k v : Bytes) : ∃ r, t.set k v = some r := by
+  induction t with
+  | leaf nk nv m => simp only [Node.set]; split <;> exact ⟨_, rfl⟩
+  | inner nk h s l r m ihl ihr =>
+    simp only [Node.set]
+    split
+    · obtain ⟨⟨l', u⟩, e⟩ := ihl
+      rw [e]
+      cases u with
+      | true => exact ⟨_, rfl⟩
+      | false =>
+        obtain ⟨n', hb, _⟩ := balance_cases nk (max l'.height r.height + 1) (l'.size + r.size) l' r Meta.fresh
+        exact ⟨(n', false), by simp [mk, hb]⟩
+    · obtain ⟨⟨r', u⟩, e⟩ := ihr
+      rw [e]
+      cases u with
+      | true => exact ⟨_, rfl⟩
+      | false =>
+        obtain ⟨n', hb, _⟩ := balance_cases nk (max l.height r'.height + 1) (l.size + r'.size) l r' Meta.fresh
+        exact ⟨(n', false), by simp [mk, hb]⟩
+
+/-- **get_set** — reading any key after a write: the written value for the written key, the old answer for
+every other key. -/
+theorem get_set (t t' : Node) (k v : Bytes) (u : Bool) (hst : ST t) (e : t.set k v = some (t', u)) (k' : Bytes) :
+    (t'.get k').2 = if k' = k then some v else (t.get k').2 := by
+  obtain ⟨t'', u', e', hl, hst'⟩ := set_spec t k v hst
+  rw [e] at e'
+  obtain ⟨rfl, rfl⟩ : t' = t'' ∧ u = u' := by simpa using e'
+  rw [get_eq_lookup t' k' hst', hl, SMap.lookup_ins, get_eq_lookup t k' hst]
+
+/-- **toList_set** — refinement: the in-order leaf list after `set` is the sorted-map insertion. -/
+theorem toList_set (t t' : Node) (k v : Bytes) (u : Bool) (hst : ST t) (e : t.set k v = some (t', u)) :
+    t'.toList = SMap.ins k v t.toList := by
+  obtain ⟨t'', u', e', hl, _⟩ := set_spec t k v hst
+  rw [e] at e'
+  obtain ⟨rfl, rfl⟩ : t' = t'' ∧ u = u' := by simpa using e'
+  exact hl
+
+/-- **toList_sorted** — the leaves of a search tree are strictly ascending by key: each key exactly once. -/
+theorem toList_strictly_sorted (t : Node) (hst : ST t) : t.toList.Pairwise (fun a b => lt a.1 b.1) :=
+  toList_sorted t hst
+
+/-- **toList_foldl_set** — refinement for whole histories: applying any list of batches (each batch an ordered
+list of writes, as `SetKVPair` does) to a tree satisfying the invariant never panics, keeps the invariant, and the
+resulting leaf list is the sorted map obtained by inserting all writes in order. -/
+theorem toList_foldl_set (t : Tree) (bs : List (List (Bytes × Bytes))) (hi : TInv t) :
+    ∃ t', applyBatches t bs = some t' ∧ TInv t' ∧
+      Tree.toList t' = SMap.insMany (Tree.toList t) bs.flatten :=
+  let ⟨t', e, hl, hi'⟩ := applyBatches_spec t bs hi
+  ⟨t', e, hi', hl⟩
+
+/-- **read_latest** — for any history of batches starting from the empty state, reading key `k` in the tree of
+batch `i` (= after the first `i` batches, for every `i` since `bs` is arbitrary) returns the value of the most
+recent write to `k` in those batches, or nothing if it was never written. -/
+theorem read_latest (bs : List (List (Bytes × Bytes))) :
+    ∃ t, applyBatches none bs = some t ∧ TInv t ∧ ∀ k, (Tree.get t k).2 = lastWrite bs.flatten k := by
+  obtain ⟨t, e, hl, hi⟩ := applyBatches_spec none bs trivial
+  refine ⟨t, e, hi, fun k => ?_⟩
+  rw [Tree.get_eq_lookup t k hi, hl, lookup_insMany]
+  cases lastWrite bs.flatten k <;> simp [Tree.toList, SMap.lookup]
+
+/-- the same statement relative to an arbitrary earlier version `t` (a fork from any committed root):
+writes of the later batches win, otherwise the answer of the parent version is kept. -/
+theorem read_latest_from (t : Tree) (bs : List (List (Bytes × Bytes))) (hi : TInv t) :
+    ∃ t', applyBatches t bs = some t' ∧ TInv t' ∧
+      ∀ k, (Tree.get t' k).2 = (lastWrite bs.flatten k).orElse (fun _ => (Tree.get t k).2) := by
+  obtain ⟨t', e, hl, hi'⟩ := applyBatches_spec t bs hi
+  refine ⟨t', e, hi', fun k => ?_⟩
+  rw [Tree.get_eq_lookup t' k hi', hl, lookup_insMany, Tree.get_eq_lookup t k hi]
+
+/-- **iterRange_spec** — for every bounds / direction / inclusiveness and every callback `f` (arbitrary state and
+stop decision), `traverseInRange` is exactly: run `f` over the leaves whose key is inside the bounds, in ascending
+(resp. descending) key order, and stop at the first `true`.  With `toList_strictly_sorted` this says: exactly the
+state's keys inside the bounds, each once, in the requested order, up to and including the first stop. -/
+theorem iterRange_spec {σ : Type} (start stop : Option Bytes) (asc incl : Bool)
+    (f : σ → Bytes → Bytes → σ × Bool) (t : Node) (hst : ST t) (st : σ) :
+    t.traverse start stop asc incl f st = runCb f (sel start stop asc incl t.toList) st :=
+  traverse_spec start stop asc incl f t hst st
+
+/-- corollary for the never-stopping collecting callback used by `IterateRangeByStateHash` callers that
+return `false`: the visited sequence is the filtered leaf list (reversed when descending). -/
+theorem iterate_all (start stop : Option Bytes) (asc incl : Bool) (t : Node) (hst : ST t) :
+    (Tree.iterate (some t) start stop asc incl none).1 = sel start stop asc incl t.toList := by
+  simp only [Tree.iterate]
+  rw [traverse_spec start stop asc incl (collectCb none) t hst []]
+  generalize sel start stop asc incl t.toList = l
+  suffices h : ∀ acc, (runCb (collectCb none) l acc).1 = acc ++ l by simpa using h []
+  induction l with
+  | nil => intro acc; simp [runCb]
+  | cons a rest ih =>
+    intro acc
+    obtain ⟨k, v⟩ := a
+    simp [runCb, collectCb, ih]
+
+/-- stored `size` = number of leaves (so `Tree.Size` is the number of keys of the state). -/
+theorem size_is_count (t : Node) (hwf : WF t) : t.size = t.toList.length := size_eq_length t hwf
 
 end C01
